@@ -1278,6 +1278,17 @@ func init() {
 			return 2
 		}
 		defer m.Close()
+		if f.replay != "" {
+			rp, err := loadPQReplay(f.replay)
+			if err != nil {
+				fmt.Fprintln(os.Stderr, err)
+				return 2
+			}
+			if len(rp.Ops) > 0 {
+				runPQHistory(rep, rp.Config, rp.Ops, rp.Seed, rp.Mode, pqWriterK1Setup(rep, m), nil)
+			}
+			return rep.finish(f)
+		}
 		r := rand.New(rand.NewSource(f.seed))
 		n, cycles := 60, 8
 		if f.tier == "thorough" {
